@@ -64,6 +64,8 @@ def gen_scenario(rng):
             if x < 0.2:
                 r["m"] = "POST"
                 r["body"] = rng.choice([1, 40])
+                if rng.random() < 0.35:
+                    r["expect"] = True
             if rng.random() < 0.1:
                 r["close"] = True
             if rng.random() < 0.12:
@@ -94,13 +96,16 @@ def gen_scenario(rng):
         # connection is given up -- every other one (and the workers) must carry on
         import errno
 
-        scn_faults = {"0:send:%d" % rng.randrange(0, 10): rng.choice([errno.ETIMEDOUT, errno.EHOSTUNREACH, errno.ENOBUFS])}
+        scn_faults = {"0:send:%d" % rng.randrange(0, 10): rng.choice([errno.ETIMEDOUT, errno.EHOSTUNREACH, errno.ENOBUFS, errno.EPIPE, errno.ECONNRESET])}
     if any(r["k"] == "stream" for c in conns for r in c["requests"]):
         # an application that waits for its own output to be delivered only makes
         # sense without send_bytes batching (output below send_bytes is held back
         # on purpose while the task runs)
         adj["send_bytes"] = 1
     scn = {"adj": adj, "sndbuf": sndbuf, "conns": conns}
+    if len(conns) == 1 and rng.random() < 0.2:
+        # the server makes its own socket map (TcpWSGIServer(app) without one, as test fixtures do)
+        scn["own_map"] = True
     if scn_faults:
         scn["faults"] = scn_faults
     return scn
@@ -130,6 +135,20 @@ def directed(poll):
     out.append({"adj": {"threads": 2, "asyncore_use_poll": poll, "send_bytes": 1}, "sndbuf": 2048,
                 "conns": [{"requests": [{"n": 100, "k": "cl", "gate": "peer"}, {"n": 10, "k": "cl"}], "sndbuf": 2048},
                           {"requests": [{"n": 50, "k": "cl"}, {"n": 600, "k": "write", "w": 100}], "sndbuf": 2048}]})
+    # a connection lost while the server answers an expectation (on the I/O thread at once, or by the
+    # worker at the end of the request in front of it): everybody else must still be served
+    import errno
+
+    for k, first in enumerate(([], [{"n": 100, "k": "cl"}], [{"n": 3000, "k": "write", "w": 500}])):
+        for fault in ({"0:send:%d" % k: errno.EPIPE}, {"0:recv:%d" % (1 + k): "CLOSE"}):
+            out.append({"adj": {"threads": 2, "asyncore_use_poll": poll, "send_bytes": 1, "channel_request_lookahead": 1}, "sndbuf": 2048,
+                        "faults": dict(fault),
+                        "conns": [{"requests": first + [{"m": "POST", "body": 40, "expect": True, "n": 10, "k": "cl"}], "sndbuf": 2048},
+                                  {"requests": [{"n": 50, "k": "cl"}, {"n": 60, "k": "chunks", "w": 7}], "sndbuf": 2048, "pingpong": True}]})
+    # the server's own socket map (no map handed in): the wake-up pipe must be in the map the loop polls
+    out.append({"adj": {"threads": 1, "asyncore_use_poll": poll, "send_bytes": 1}, "sndbuf": 512, "own_map": True,
+                "conns": [{"requests": [{"n": 513, "k": "cl"}, {"n": 20, "k": "chunks", "w": 7}, {"n": 300, "k": "write", "w": 200, "close": True}],
+                           "sndbuf": 512, "pingpong": True}]})
     return out
 
 
@@ -153,7 +172,7 @@ def plan(tier, seed):
     for poll in (False, True):
         ds = directed(poll)
         if tier == "quick":
-            ds = [ds[0], ds[2], ds[6], ds[7], ds[-2], ds[-1]]
+            ds = [ds[0], ds[2], ds[6], ds[7], ds[9], ds[10]] + ds[11:]
         for k, scn in enumerate(ds):
             for p in range(parts):
                 specs.append({"mode": "enum", "scn": scn, "part": p, "parts": parts, "cap": 700 if tier == "quick" else 6000})
